@@ -2,6 +2,7 @@
 //   rec_transform rec <seed> <count>     : builders, single in-place steps on non-affine current matrices, frames
 //   rec_transform replay <programs.txt>  : TLC-generated sequences of in-place operations with integer parameters
 #include "vrec.h"
+#include <limits>
 #include <ImathMatrixAlgo.h>
 #include <ImathFrame.h>
 #include <ImathShear.h>
@@ -80,6 +81,7 @@ template <class T> static void builders (Gen<T>& g, int it)
         Vec3<T> axis (g.pick (mode), g.pick (mode), g.pick (mode));
         if (it % 4 == 0) axis = axis * (T) 1e10;
         if (it % 4 == 1) axis = axis * (T) 1e-10;
+        if (it % 8 == 5) axis = Vec3<T> (T (1 + it % 3), T (it % 2), T (-2)) * (std::numeric_limits<T>::min () * T (16));   // non-zero, but its squared length underflows
         if (axis.length () == 0) axis = Vec3<T> (0, 0, 1);
         Matrix44<T> m = rnd44<T> (g, mode); m.setAxisAngle (axis, a);
         T aa[4] = {axis.x, axis.y, axis.z, a};
@@ -123,10 +125,16 @@ template <class T> static void frames (Gen<T>& g, int it)
     auto v = [&] () { return Vec3<T> (g.pick (mode), g.pick (mode), g.pick (mode)); };
     auto rec = [&] (const char* fn, const std::string& in, const std::string& m) { Rec r ("frame"); r.str ("fn", fn); r.str ("t", t); r.raw ("in", in); r.raw ("m", m); r.emit (); };
     Vec3<T> a = v (), b = v (), c = v ();
-    int deg = it % 6;     // 0: generic ... degenerate cases: zero vectors, exactly parallel
+    int deg = it % 8;     // 0: generic ... degenerate cases: zero vectors, exactly parallel, axis-aligned targets of any length
     if (deg == 3) b = a * (T) 2;
     if (deg == 4) b = Vec3<T> (0, 0, 0);
     if (deg == 5) a = Vec3<T> (0, 0, 0);
+    if (deg >= 6)
+    {
+        static const double lens[4] = {0.5, 1.0, 3.0, 0.03125};
+        a = Vec3<T> (0, 0, 0); a[(it / 8) % 3] = (T) (((it / 24) % 2 ? -1.0 : 1.0) * lens[(it / 48) % 4]);
+        b = (deg == 6) ? a * (T) ((it / 96) % 2 ? -2.5 : 4.0) : Vec3<T> (0, 0, 0);            // up exactly (anti)parallel to the target, or zero
+    }
     rec ("rotationMatrix", "[" + jv (a) + "," + jv (b) + "]", jv (rotationMatrix (a, b)));
     rec ("rotationMatrixWithUpDir", "[" + jv (a) + "," + jv (b) + "," + jv (c) + "]", jv (rotationMatrixWithUpDir (a, b, c)));
     { Matrix44<T> m; alignZAxisWithTargetDir (m, a, b); rec ("alignZAxisWithTargetDir", "[" + jv (a) + "," + jv (b) + "]", jv (m)); }
